@@ -2,9 +2,14 @@ package main
 
 import (
 	"bytes"
+	"crypto"
+	stdrsa "crypto/rsa"
+	"crypto/sha1"
+	"crypto/sha256"
 	stdx509 "crypto/x509"
-	"encoding/gob"
 	stdpkix "crypto/x509/pkix"
+	stdasn1 "encoding/asn1"
+	"encoding/gob"
 	"encoding/json"
 	"fmt"
 	"math/big"
@@ -71,8 +76,10 @@ type corpus struct {
 	all     []xgen.Seed
 	minted  []xgen.Seed
 	edCA    []byte
-	issuer  *x509.Certificate
-	leaf    *x509.Certificate
+	issuer  *x509.Certificate // zcrypto view of the harness CA (signs the created OCSP responses)
+	leaf    *x509.Certificate // a leaf issued by it, serial 8
+	stdCA   *stdx509.Certificate
+	stdLeaf *stdx509.Certificate
 	created []xgen.Seed // CSRs, CRLs, keys, OCSP made with the Go standard library
 }
 
@@ -88,11 +95,29 @@ func mintOnly(c *corpus) {
 		switch s.Name {
 		case "minted:ca:ed-minted":
 			c.edCA = s.Data
-		case "minted:ca:p256":
-			c.issuer, _ = x509.ParseCertificate(s.Data)
-		case "minted:leaf:p256":
-			c.leaf, _ = x509.ParseCertificate(s.Data)
 		}
+	}
+	// the CA that signs the harness-made CRLs and OCSP responses (standard
+	// library, RSA PKCS#1 v1.5: byte-identical in every process) and a leaf
+	rnd := detRand{fx.NewRand("c01-ocsp-ca")}
+	rsaKey := fx.StdRSA("rsa1024")
+	caT := &stdx509.Certificate{SerialNumber: big.NewInt(1), Subject: stdpkix.Name{CommonName: "c01 crl ca"}, NotBefore: fx.T0.Add(-time.Hour),
+		NotAfter: fx.T0.Add(time.Hour), IsCA: true, BasicConstraintsValid: true, KeyUsage: stdx509.KeyUsageCRLSign | stdx509.KeyUsageCertSign,
+		SubjectKeyId: []byte{1, 2, 3, 4}}
+	caDER, err := stdx509.CreateCertificate(rnd, caT, caT, rsaKey.Public(), rsaKey)
+	if err != nil {
+		return
+	}
+	c.stdCA, _ = stdx509.ParseCertificate(caDER)
+	c.issuer, _ = x509.ParseCertificate(caDER)
+	if c.stdCA == nil {
+		return
+	}
+	leafDER, err := stdx509.CreateCertificate(rnd, &stdx509.Certificate{SerialNumber: big.NewInt(8), Subject: stdpkix.Name{CommonName: "leaf"},
+		NotBefore: fx.T0.Add(-time.Hour), NotAfter: fx.T0.Add(time.Hour)}, c.stdCA, fx.Ed("c01-csr").Public(), rsaKey)
+	if err == nil {
+		c.stdLeaf, _ = stdx509.ParseCertificate(leafDER)
+		c.leaf, _ = x509.ParseCertificate(leafDER)
 	}
 }
 
@@ -135,40 +160,26 @@ func loadCorpus(repo string) *corpus {
 	add("created:csr:ed25519", "csr", b, err)
 	b, err = stdx509.CreateCertificateRequest(rnd, tmpl, rsaKey)
 	add("created:csr:rsa1024", "csr", b, err)
-	// CRLs signed by a standard-library CA
-	caT := &stdx509.Certificate{SerialNumber: big.NewInt(1), Subject: stdpkix.Name{CommonName: "c01 crl ca"}, NotBefore: fx.T0.Add(-time.Hour),
-		NotAfter: fx.T0.Add(time.Hour), IsCA: true, BasicConstraintsValid: true, KeyUsage: stdx509.KeyUsageCRLSign | stdx509.KeyUsageCertSign,
-		SubjectKeyId: []byte{1, 2, 3, 4}}
-	if caDER, err := stdx509.CreateCertificate(rnd, caT, caT, rsaKey.Public(), rsaKey); err == nil {
-		if ca, err := stdx509.ParseCertificate(caDER); err == nil {
-			for n := 0; n <= 2; n++ {
-				rl := &stdx509.RevocationList{Number: big.NewInt(int64(5 + n)), ThisUpdate: fx.T0, NextUpdate: fx.T0.Add(time.Hour)}
-				for i := 0; i < n; i++ {
-					rl.RevokedCertificateEntries = append(rl.RevokedCertificateEntries, stdx509.RevocationListEntry{
-						SerialNumber: big.NewInt(int64(100 + i)), RevocationTime: fx.T0.Add(-time.Minute), ReasonCode: i})
-				}
-				b, err := stdx509.CreateRevocationList(rnd, rl, ca, rsaKey)
-				add(fmt.Sprintf("created:crl:%d-entries", n), "crl", b, err)
+	// CRLs and OCSP messages signed by the standard-library CA of mintOnly
+	if ca := c.stdCA; ca != nil {
+		for n := 0; n <= 2; n++ {
+			rl := &stdx509.RevocationList{Number: big.NewInt(int64(5 + n)), ThisUpdate: fx.T0, NextUpdate: fx.T0.Add(time.Hour)}
+			for i := 0; i < n; i++ {
+				rl.RevokedCertificateEntries = append(rl.RevokedCertificateEntries, stdx509.RevocationListEntry{
+					SerialNumber: big.NewInt(int64(100 + i)), RevocationTime: fx.T0.Add(-time.Minute), ReasonCode: i})
 			}
-			// OCSP responses (x/crypto/ocsp): with and without embedded responder certificate
-			for _, embed := range []bool{false, true} {
-				t := xocsp.Response{Status: xocsp.Good, SerialNumber: big.NewInt(8), ThisUpdate: fx.T0, NextUpdate: fx.T0.Add(time.Hour)}
-				if embed {
-					t.Certificate = ca
-					t.Status = xocsp.Revoked
-					t.RevokedAt = fx.T0.Add(-time.Hour)
-					t.RevocationReason = 1
-				}
-				b, err := xocsp.CreateResponse(ca, ca, t, rsaKey)
-				add(fmt.Sprintf("created:ocsp-response:embed=%v", embed), "ocsp-response", b, err)
-			}
-			if leafDER, err := stdx509.CreateCertificate(rnd, &stdx509.Certificate{SerialNumber: big.NewInt(8), Subject: stdpkix.Name{CommonName: "leaf"},
-				NotBefore: fx.T0.Add(-time.Hour), NotAfter: fx.T0.Add(time.Hour)}, ca, edKey.Public(), rsaKey); err == nil {
-				if leaf, err := stdx509.ParseCertificate(leafDER); err == nil {
-					b, err := xocsp.CreateRequest(leaf, ca, nil)
-					add("created:ocsp-request", "ocsp-request", b, err)
-				}
-			}
+			b, err := stdx509.CreateRevocationList(rnd, rl, ca, rsaKey)
+			add(fmt.Sprintf("created:crl:%d-entries", n), "crl", b, err)
+		}
+		// OCSP responses about the leaf, hand-assembled (ocsp.CreateResponse stamps
+		// the current time into producedAt: not reproducible): good without
+		// certificates / revoked with embedded responder certificate
+		for _, embed := range []bool{false, true} {
+			add(fmt.Sprintf("created:ocsp-response:embed=%v", embed), "ocsp-response", makeOCSPResponse(ca, rsaKey, embed), nil)
+		}
+		if c.stdLeaf != nil {
+			b, err := xocsp.CreateRequest(c.stdLeaf, ca, nil)
+			add("created:ocsp-request", "ocsp-request", b, err)
 		}
 	}
 	add("created:key:pkcs1", "privkey-pkcs1", stdx509.MarshalPKCS1PrivateKey(rsaKey), nil)
@@ -184,6 +195,40 @@ func loadCorpus(repo string) *corpus {
 	b, err = stdx509.MarshalECPrivateKey(fx.EC("p521"))
 	add("created:key:sec1-p521", "privkey-ec", b, err)
 	return c
+}
+
+// makeOCSPResponse builds an RFC 6960 OCSPResponse (status successful, one
+// SingleResponse for serial 8) signed with sha256WithRSAEncryption.
+func makeOCSPResponse(ca *stdx509.Certificate, key *stdrsa.PrivateKey, embed bool) []byte {
+	var spki struct {
+		Alg stdasn1.RawValue
+		Key stdasn1.BitString
+	}
+	if _, err := stdasn1.Unmarshal(ca.RawSubjectPublicKeyInfo, &spki); err != nil {
+		return nil
+	}
+	nameHash := sha1.Sum(ca.RawSubject)
+	keyHash := sha1.Sum(spki.Key.RightAlign())
+	certID := xgen.Seq(xgen.Seq(xgen.OID(1, 3, 14, 3, 2, 26), xgen.Null()), xgen.OctetString(nameHash[:]), xgen.OctetString(keyHash[:]), xgen.Int(8))
+	status := xgen.Ctx(0, false) // good
+	responder := xgen.Ctx(2, true, xgen.OctetString(keyHash[:]))
+	if embed {
+		status = xgen.Ctx(1, true, xgen.GenTime(fx.T0.Add(-time.Hour)), xgen.Explicit(0, xgen.TLV(0x0a, []byte{1})))
+		responder = xgen.Ctx(1, true, ca.RawSubject)
+	}
+	single := xgen.Seq(certID, status, xgen.GenTime(fx.T0), xgen.Explicit(0, xgen.GenTime(fx.T0.Add(time.Hour))))
+	tbs := xgen.Seq(responder, xgen.GenTime(fx.T0), xgen.Seq(single))
+	digest := sha256.Sum256(tbs)
+	sig, err := stdrsa.SignPKCS1v15(nil, key, crypto.SHA256, digest[:])
+	if err != nil {
+		return nil
+	}
+	parts := [][]byte{tbs, xgen.Seq(xgen.OID(1, 2, 840, 113549, 1, 1, 11), xgen.Null()), xgen.BitString(sig)}
+	if embed {
+		parts = append(parts, xgen.Explicit(0, xgen.Seq(ca.Raw)))
+	}
+	basic := xgen.Seq(parts...)
+	return xgen.Seq(xgen.TLV(0x0a, []byte{0}), xgen.Explicit(0, xgen.Seq(xgen.OID(1, 3, 6, 1, 5, 5, 7, 48, 1, 1), xgen.OctetString(basic))))
 }
 
 func firstElement(in []byte) []byte {
@@ -387,7 +432,11 @@ func buildUnits(quick bool, cp *corpus) []unit {
 		}
 		sort.Strings(names)
 		for _, k := range names {
-			add("seed/ct/"+k, bytesMenu(xgen.Seed{Data: cts[k]}), famEntries("ct"))
+			// the CT readers allocate the declared length before reading (up to
+			// 16 MiB per call, inside the bound but slow): spread each seed over 6 units
+			for sh := 0; sh < 6; sh++ {
+				add(fmt.Sprintf("seed/ct/%s/shard=%d/6", k, sh), bytesMenu(xgen.Seed{Data: cts[k]}).Shard(sh, 6), famEntries("ct"))
+			}
 		}
 	}
 
@@ -410,7 +459,7 @@ func buildUnits(quick bool, cp *corpus) []unit {
 	if cp.edCA != nil {
 		l := map[bool]int{true: 2, false: 3}[quick]
 		add("model/sst", sstModel(cp.edCA, l, false), famEntries("sst"))
-		units = append(units, unit{name: "model/sst/huge-declared-length", gen: sstModel(cp.edCA, l, true), entries: famEntries("sst"), last: true})
+		units = append(units, unit{name: "model/sst/huge-declared-length", gen: sstModel(cp.edCA, l-1, true), entries: famEntries("sst"), last: true})
 	}
 	for _, s := range xgen.OfKind(cp.all, "sst") {
 		add("seed/sst/"+s.Name, seedMenu(s, head, tail), famEntries("sst"))
@@ -419,6 +468,12 @@ func buildUnits(quick bool, cp *corpus) []unit {
 	// TLS handshake messages: recorded messages, byte menus, fed to every message type
 	{
 		hs := xgen.OfKind(cp.all, "tls-handshake")
+		// message types the recorded transcripts do not contain in clear text
+		hs = append(hs,
+			xgen.Seed{Name: "created:tls:certificateStatus", Data: []byte{22, 0, 0, 8, 1, 0, 0, 4, 0xde, 0xad, 0xbe, 0xef}},
+			xgen.Seed{Name: "created:tls:keyUpdate", Data: []byte{24, 0, 0, 1, 1}},
+			xgen.Seed{Name: "created:tls:endOfEarlyData", Data: []byte{5, 0, 0, 0}},
+			xgen.Seed{Name: "created:tls:helloRequest", Data: []byte{0, 0, 0, 0}})
 		perType := map[byte]int{}
 		for _, s := range hs {
 			t := s.Data[0]
